@@ -108,6 +108,7 @@ func checkC05(c *Ctx) {
 	// whatever state the rings are in, their index arithmetic does not panic
 	c.ringMemorySafety()
 	c.oversizedPacketRejected()
+	c.failedResultsNotDereferenced()
 }
 
 // deferredRecover: a function deferred in the entry block calls recover().
